@@ -70,6 +70,36 @@ pub fn corr(ctx: &mut Ctx) {
         }
     }
     ctx.count_n("32-bit values", v32.len() as u64);
+    // call histories on ONE thread: the four functions interleaved on numerically equal / neighbouring arguments, repeated
+    // calls, both widths (a function that remembers earlier calls - a memo table, a shared scratch - shows only here)
+    ctx.begin_case("ih interleaved widths and repeated calls on one thread");
+    ctx.mark_nontrivial();
+    let mut hist: Vec<u32> = structured32();
+    for _ in 0..ctx.n(2000, 40000) { hist.push(ctx.rng.next() as u32); }
+    for (i, v) in hist.iter().enumerate() {
+        let v = *v;
+        let w = v as u64;
+        let order = i % 4;
+        // expected values from closed compositions evaluated first on a DIFFERENT thread (no shared thread-local history)
+        // (each expected value in a thread of its own, so that no call precedes it there)
+        let e32 = std::thread::spawn(move || int32_hash_inverse(v)).join().unwrap();
+        let e64 = std::thread::spawn(move || int64_hash_inverse(w)).join().unwrap();
+        let f32_ = std::thread::spawn(move || int32_hash(v)).join().unwrap();
+        let f64_ = std::thread::spawn(move || int64_hash(w)).join().unwrap();
+        let got = match order {
+            0 => { let a = int32_hash_inverse(v); let b = int64_hash_inverse(w); (a, b, int32_hash(v), int64_hash(w)) }
+            1 => { let b = int64_hash_inverse(w); let a = int32_hash_inverse(v); (a, b, int32_hash(v), int64_hash(w)) }
+            2 => { let c = int32_hash(v); let d = int64_hash(w); let b = int64_hash_inverse(w); let a = int32_hash_inverse(v); (a, b, c, d) }
+            _ => { let _ = int64_hash_inverse(w); let _ = int32_hash_inverse(v); let a = int32_hash_inverse(v); let b = int64_hash_inverse(w); (a, b, int32_hash(v), int64_hash(w)) }
+        };
+        let ok = got == (e32, e64, f32_, f64_) && int32_hash(got.0) == v && int64_hash(got.1) == w && int32_hash_inverse(got.2) == v && int64_hash_inverse(got.3) == w;
+        if !ok {
+            ctx.oracle_failure(serde_json::json!({"kind":"impl_violates_property","what":"result of a hash / inverse depends on earlier calls on the same thread (interleaved 32- and 64-bit calls on the same numeric value)",
+                "value":format!("{:08x}", v),"call_order":order,"inverse32":format!("{:08x}",got.0),"inverse64":hx(got.1),"expected_inverse32":format!("{:08x}",e32),"expected_inverse64":hx(e64)}));
+            break;
+        }
+    }
+    ctx.count_n("interleaved call histories", hist.len() as u64);
     if !ctx.quick() {
         sweep(ctx);
     }
